@@ -539,6 +539,68 @@ func runC01(c *Ctx) {
 		}
 	}
 
+	// ---- the default user ID from many goroutines with DIFFERENT keys: whatever is precomputed for the default ID (it is
+	// what Sign, Verify, x509 and gmtls always use) is shared by everybody; every ZA and every e = H(ZA || M) computed
+	// concurrently must be the sequential one
+	{
+		type want struct {
+			key    testKey
+			za, dg []byte
+		}
+		var ws []want
+		msg := []byte("concurrent default-ID digest")
+		for i, k := range keys {
+			if i >= 12 {
+				break
+			}
+			za, e1 := sm2.ZA(k.pub(), nil)
+			dg, e2 := k.pub().Sm3Digest(msg, nil)
+			if e1 != nil || e2 != nil {
+				continue
+			}
+			ws = append(ws, want{k, za, dg})
+		}
+		var mu sync.Mutex
+		wrong := 0
+		total := 0
+		var wg sync.WaitGroup
+		for g := 0; g < 16; g++ {
+			wg.Add(1)
+			go func(g int) {
+				defer wg.Done()
+				bad, n := 0, 0
+				for i := 0; i < c.Q(1500, 30000); i++ {
+					w := ws[(g+i)%len(ws)]
+					var za, dg []byte
+					if pi := mon.Guard(func() {
+						if i%2 == 0 {
+							za, _ = sm2.ZA(w.key.pub(), nil)
+						} else {
+							dg, _ = w.key.pub().Sm3Digest(msg, nil)
+						}
+					}); pi != nil {
+						bad++
+						continue
+					}
+					n++
+					if (za != nil && !bytes.Equal(za, w.za)) || (dg != nil && !bytes.Equal(dg, w.dg)) {
+						bad++
+					}
+				}
+				mu.Lock()
+				wrong += bad
+				total += n
+				mu.Unlock()
+			}(g)
+		}
+		wg.Wait()
+		if wrong > 0 {
+			rep.Violation("C01/ZA-or-Sm3Digest/concurrent-result-differs-from-sequential/default-ID", fmt.Sprintf("%d of %d computations by 16 goroutines with different keys", wrong, total), nil)
+		}
+		rep.Count("default_id_digests_computed_concurrently", int64(total))
+		rep.Eval("concurrent/default-ID/ZA+Sm3Digest")
+	}
+
 	// ---- inputs that are sub-slices of one live record buffer (ID‖message, message‖ID, message‖signature): each slice has
 	// spare capacity that IS the next field. The result must be the one separate copies give (same nonce stream -> same
 	// pair), and not a byte of the buffer may change.
